@@ -111,8 +111,8 @@
              (* 4 (b2i (= true (safe2 compare<= x y))))
              (* 8 (b2i (= true (safe2 compare> x y))))
              (* 16 (b2i (= true (safe2 compare>= x y))))))
-  (def c5 (+ (b2i (call2 not= x y))
-             (* 2 (b2i (deep= x y)))))
+  # (deep= is deliberately not called: it iterates with `next`, which can cycle on a corrupt struct)
+  (def c5 (b2i (call2 not= x y)))
   (buffer/push-byte into (+ 48 c3))
   (buffer/push-byte into (+ 48 c4))
   (buffer/push-byte into (+ 48 c5)))
